@@ -289,6 +289,7 @@ type Ctx struct {
 	unsup       []string
 	assumed     map[string]bool // assumed external contracts / defaults used
 	inlined     map[string]bool
+	uses        map[string]bool // keys of in-repo callees whose (checked) contract was applied
 	strConsts   map[string]string
 	pure        int // >0 while evaluating spec functions: obligations suppressed
 	curReach    string
